@@ -23,6 +23,34 @@ META = dict(
 OKL = {'Ok', 'pass', 'Some'}
 
 
+def stored_copy_semantics(ctx, b):
+    """How engine::Run::load_ta uses the stored copy -> (decoded before use, undecodable counts as absent).
+    Two shapes: `store.load_ta(uri).map(|b| b.and_then(|b| Cert::decode(b).ok()))` (closures) or explicit matches
+    (every `Ok(Some(x))` of a fallback path is the Ok payload of Cert::decode over the stored bytes; every fallback path
+    on which that decode failed returns `Ok(None)`)."""
+    cls = [c for c in ctx.closures(b) if c.calls('Cert::decode')]
+    if cls:
+        tolerant = any('Cert::decode' in arg_desc(s, 0) for c in cls for s in c.calls('Result::ok'))
+        return True, tolerant
+    dec = absent = True
+    n = 0
+    for p in enumerate_paths(b, ctx.facts):
+        if p.kind != 'return' or not p.called('store::Run::load_ta'):
+            continue
+        o = p.outcome or ''
+        cm = p.cond_map()
+        sd = [l for v, l in cm.items() if v.startswith('call:Cert::decode(') and 'self.store' in v]
+        if o.startswith('Result::Ok(Option::Some('):
+            n += 1
+            if not (re.match(r'^Result::Ok\(Option::Some\(call:Cert::decode\(.*self\.store.*\)@Ok\.0\)\)$', o) and sd and sd[0] == {'Ok'}):
+                dec = False
+        elif sd and sd[0] == {'Err'}:
+            n += 1
+            if o != 'Result::Ok(Option::None())':
+                absent = False
+    return dec and n >= 2, absent and n >= 2
+
+
 def rule_load_ta(ctx):
     b = ctx.body('engine::Run::load_ta')
     ups = b.calls('store::Run::update_ta')
@@ -32,10 +60,19 @@ def rule_load_ta(ctx):
         G('Ok(Cert::decode)', call='Cert::decode', labels=OKL),
     ], 'a downloaded trust anchor certificate is stored only if it decodes')
     for u in ups:
-        stored = arg_desc(u, 2)
-        decs = [arg_desc(d, 0) for d in b.calls('Cert::decode') if b.site_dominates(d, u)]
-        same = any(('collector::base::Run::load_ta' in stored or 'Run::load_ta' in stored) and
-                   ('Run::load_ta' in d) and re.sub(r'@Some\.0', '', d) == re.sub(r'@Some\.0', '', stored) for d in decs)
+        # path-sensitive: on every path that reaches update_ta, the stored bytes are the argument of a decode that returned Ok
+        verdicts = []
+        for p in enumerate_paths(b, ctx.facts):
+            if not any(s.bb == u.bb for s in p.events):
+                continue
+            stored = (p.event_args.get(u.bb) or [None, None, None])[2] if len(p.event_args.get(u.bb) or []) > 2 else None
+            cm = p.cond_map()
+            okd = [(p.event_args.get(s.bb) or [None])[0] for s in p.events if s.callee.endswith('Cert::decode')]
+            okd = [d for d in okd if d and cm.get('call:Cert::decode(%s)' % d) == {'Ok'}]
+            verdicts.append((stored, okd, bool(stored) and stored in okd and 'self.collector' in stored))
+        same = bool(verdicts) and all(v[2] for v in verdicts)
+        stored = sorted(set(str(v[0]) for v in verdicts))
+        decs = sorted(set(d for v in verdicts for d in v[1]))
         ctx.check(same, 'prov', 'load_ta:stored-bytes=decoded-bytes',
                   'the bytes written to the store (%s) are the bytes that decoded (%s)' % (stored, decs),
                   'the bytes written to the store (`%s`) are not the bytes that were decoded (`%s`)' % (stored, decs), loc=u.loc())
@@ -75,9 +112,9 @@ def rule_load_ta(ctx):
                       'when the download is unavailable or undecodable (collector=%s, download=%s, decode=%s) load_ta does not '
                       'fall back to the stored copy, or overwrites it' % (coll, dl, dec), loc=p.ret_site.loc() if p.ret_site else None)
     ctx.floor('K4', 'fallback paths of load_ta', n_fb, 3)
-    # the stored copy is decoded too (closure of the map)
-    cls = [c for c in ctx.closures(b) if c.calls('Cert::decode')]
-    ctx.check(len(cls) >= 1, 'K4', 'load_ta:stored-copy-decoded', 'the stored copy is decoded before use',
+    # the stored copy is decoded too
+    dec, _absent = stored_copy_semantics(ctx, b)
+    ctx.check(dec, 'K4', 'load_ta:stored-copy-decoded', 'the stored copy is decoded before use',
               'the stored copy is used without Cert::decode')
     who_calls(ctx, 'K3', 'store::Run::update_ta', ['engine::Run::load_ta'])
 
@@ -100,4 +137,6 @@ def rule_no_anchor(ctx):
                   'when every URI failed no trust anchor is processed', 'process_ta reachable after the URI loop is exhausted')
 
 
-RULES = [rule_tal, rule_load_ta, rule_no_anchor]
+from props.C40 import rule_ta_cleanup  # noqa: E402  (the stored copy a failed download falls back to must survive cleanup)
+
+RULES = [rule_tal, rule_load_ta, rule_no_anchor, rule_ta_cleanup]
